@@ -1,12 +1,15 @@
 #!/bin/sh
 # MANIFEST.setup_cmd: build the parent tools from files on disk only (offline)
-# and warm the race-enabled standard-library build cache.
+# and warm the race-enabled standard-library build cache. Relocatable: builds
+# into the directory this script lives in (a background snapshot sets
+# VERIF_HOME to that directory when it runs the tools).
 set -e
 export GOFLAGS=-mod=mod GOPROXY=off GOSUMDB=off GOTOOLCHAIN=local GOWORK=off GO111MODULE=on
-cd /verif/sim
+HERE=$(cd "$(dirname "$0")" && pwd)
+cd "$HERE/sim"
 [ -f /repo/go.sum ] && cp /repo/go.sum go.sum
-mkdir -p /verif/bin /verif/evidence /verif/replays
-go build -o /verif/bin/ ./cmd/verif ./cmd/instrument
-# warm caches (plain with checkptr, and race): builds nothing that is kept
+mkdir -p "$HERE/bin" "$HERE/evidence" "$HERE/replays"
+go build -o "$HERE/bin/" ./cmd/verif ./cmd/instrument
+# warm the race build cache: builds nothing that is kept
 go build -race -gcflags=all=-d=checkptr=0 -o /dev/null ./cmd/instrument 2>/dev/null || true
 echo "setup ok"
